@@ -8,6 +8,7 @@ import (
 	"strings"
 
 	"pvh/internal/core"
+	"pvh/internal/decoder"
 )
 
 func init() {
@@ -18,7 +19,8 @@ func init() {
 			"clean Close+Open, on Mem/CrashFS/OS/OSMMap in rotation with thresholds from a grid (incl. the repository tests' values). After every Compact that " +
 			"returned nil: every segment listed before and gone afterwards must have neither its .psg nor its .psg.pmt file left; every file in the directory " +
 			"must be a live segment, a live segment's .pmt, main.pix, overflow.pix, index.pmt, db.pmt or lock; Sync, Put, Delete, Backup (every 7th cycle) and " +
-			"later Close must succeed, also when compaction removed every segment (a delete-everything cycle is forced). At quiescent points: file count <= " +
+			"later Close must succeed, also when compaction removed every segment (a delete-everything cycle is forced). Right after every Compact no segment of at least the minimum size may consist of dead records (measured by the " +
+			"harness from the files and the index) to more than twice the fragmentation threshold + 5 points. At quiescent points: file count <= " +
 			"2*live segments+5, open descriptors (/proc/self/fd after runtime.GC) <= baseline+live segments+5, database-file mappings <= live segments+4, and " +
 			"the maximum directory size of the second half of the cycles <= 2*maximum of the first half + one segment. evaluations = compactions + restarts " +
 			"checked; distinct_nontrivial = distinct (fs, thresholds, segments removed, live segments) observations of effective compactions.",
@@ -101,6 +103,11 @@ func runC15(c *core.Ctx) {
 		delete(ref, string(k))
 	}
 	cycles := 40 + rng.Intn(30)
+	// "lazy" runs: every session writes and ends without compacting; compaction happens first thing in the next session
+	lazy := c.Case%3 == 1
+	if lazy {
+		c.Stat("lazy_compaction_runs", 1)
+	}
 	var dirSizes []int64
 	dirSize := func() int64 {
 		var t int64
@@ -140,6 +147,50 @@ func runC15(c *core.Ctx) {
 			}
 		}
 	}
+	// checkReclaimed: right after a Compact that returned nil (quiescent, nobody else writes) no segment may be left
+	// that is far above the configured thresholds: at least minimum size and with a share of dead bytes (records no
+	// index slot points at, plus delete records) of at least twice the fragmentation threshold (+5 points, capped at
+	// 95%). Dead bytes are measured by the harness from the files and the index, not taken from the library's counters.
+	checkReclaimed := func(cy int) {
+		vi, err := db.VerifIndexDump()
+		if err != nil {
+			return
+		}
+		live := map[string]int64{} // "segid@offset"
+		for _, chain := range vi.Chains {
+			for _, b := range chain {
+				for _, sl := range b.Slots {
+					live[fmt.Sprintf("%d@%d", sl.SegmentID, sl.Offset)] = 1
+				}
+			}
+		}
+		limit := float64(2*cfg.Frag) + 0.05
+		if limit > 0.95 {
+			limit = 0.95
+		}
+		for _, sg := range db.VerifSegments() {
+			d, err := env.ReadFile(filepath.Join(env.Dir, sg.Name))
+			if err != nil {
+				continue
+			}
+			recs, _, err := decoder.ValidPrefix(d)
+			if err != nil {
+				continue
+			}
+			var dead int64
+			for _, r := range recs {
+				if r.Delete || live[fmt.Sprintf("%d@%d", sg.ID, r.Offset)] == 0 {
+					dead += r.Size
+				}
+			}
+			c.Stat("segments_fragmentation_measured", 1)
+			frag := float64(dead) / float64(len(d))
+			if uint32(len(d)) >= cfg.MinSeg && frag >= limit {
+				fail("dead-space-not-reclaimed", fmt.Sprintf("cycle %d: right after Compact returned nil, segment %s (%d bytes) consists to %.0f%% of dead records (fragmentation threshold %.0f%%, minimum size %d): the space of overwritten/deleted records is not reclaimed", cy, sg.Name, len(d), frag*100, cfg.Frag*100, cfg.MinSeg))
+				return
+			}
+		}
+	}
 	for cy := 0; cy < cycles && !violated; cy++ {
 		// steady overwrite/delete workload on the same live set
 		everything := cy == cycles/2 || (cy > 3 && rng.Intn(25) == 0)
@@ -162,6 +213,21 @@ func runC15(c *core.Ctx) {
 		}
 		if violated {
 			break
+		}
+		if ((cy%3 == 2 && rng.Intn(2) == 0) || lazy) && !everything {
+			// a session that ends without compacting: the dead space it produced must be reclaimed by a later session
+			if err := db.Close(); err != nil {
+				fail("close-error-after-compaction", fmt.Sprintf("cycle %d: Close failed: %v", cy, err))
+				return
+			}
+			db, err = env.Open(cfg)
+			if err != nil {
+				fail("reopen-error", err.Error())
+				return
+			}
+			c.Stat("restarts", 1)
+			c.Stat("sessions_without_compaction", 1)
+			// the new session compacts before it writes anything: what the previous session left must be reclaimed now
 		}
 		before := db.VerifSegments()
 		beforeFiles := env.List(env.Dir)
@@ -207,6 +273,7 @@ func runC15(c *core.Ctx) {
 			c.Trivial(1)
 		}
 		checkFiles(fmt.Sprintf("cycle %d after Compact", cy))
+		checkReclaimed(cy)
 		if violated {
 			break
 		}
